@@ -40,7 +40,7 @@ def predict_run(decls, check_rules, header, run):
                     verdict = "rejected"
                     break
             if verdict == "ok":
-                stored = [c.ljust(d["width"]) for c, d in zip(row, decls)] if (fixed and not writer) else list(row)
+                stored = [c.ljust(d["width"]) for c, d in zip(row, decls)] if fixed else list(row)
                 for check, rule in zip(checks, check_rules):
                     log.append([check, "row", stored])
                     if rule.startswith("veto:") and rule[5:] in [v.strip() for v in stored]:
